@@ -9,6 +9,7 @@
 import SvgVerif.Proofs.DocLoop
 import SvgVerif.Proofs.DocCascade
 import SvgVerif.Proofs.DocTotal
+import SvgVerif.Props.C03
 import Batteries.Data.List.Perm
 namespace Svg.Doc
 set_option linter.unusedSectionVars false
@@ -626,6 +627,178 @@ theorem C10_no_abort (ppi : K) (num : NumLit → K) (f : Frame K) (roots : List 
 example (ppi : K) (num : NumLit → K) (w h : Dim K) :
     ScopeFine (liveCfg ppi num) (initFrame "black" none w h).vals := by
   intro p hp; simp [initFrame] at hp
+
+/-! #### stage B included -/
+
+/-- the pieces of `values["viewport_transform"]` are acceptable too -/
+def VtFine (cfg : Cfg K) (v : Vals K) : Prop := ∀ p ∈ v.vt.getD [], PieceFine cfg p
+
+theorem svgEnter_vtfine (cfg : Cfg K) (n : Bool) (vals v : Vals K) (w h w' h' : Dim K)
+    (e : svgEnter cfg n vals w h = .ok v w' h') (hf : ScopeFine cfg vals) (hv : VtFine cfg vals) : VtFine cfg v := by
+  unfold svgEnter at e
+  simp only [] at e
+  repeat' split at e
+  all_goals first
+    | (cases e; done)
+    | (injection e with e1 _ _; subst e1
+       intro p hp
+       first
+         | exact hv p hp
+         | (simp only [Option.getD_some, List.mem_append, List.mem_singleton] at hp
+            rcases hp with h1 | h1
+            · exact hf p h1
+            · rw [h1]; exact mat_fine cfg _))
+
+theorem useEnter_vtfine (cfg : Cfg K) (vals v : Vals K)
+    (e : useEnter cfg vals = .ok v) (hv : VtFine cfg vals) : VtFine cfg v := by
+  unfold useEnter at e
+  simp only [] at e
+  repeat' split at e
+  all_goals first
+    | (cases e; done)
+    | (injection e with e1; subst e1; exact hv)
+
+theorem dispatch_vtfine (cfg : Cfg K) (f : Frame K) (vals : Vals K) (tag : String)
+    (hf : ScopeFine cfg vals) (hv : VtFine cfg vals) : VtFine cfg (dispatch cfg f vals tag).1.vals := by
+  unfold dispatch
+  repeat' split
+  all_goals first
+    | exact hv
+    | (rename_i e; exact svgEnter_vtfine _ _ _ _ _ _ _ _ e hf hv)
+    | (rename_i e; exact useEnter_vtfine _ _ _ e hv)
+    | (intro p hp; exact hv p hp)
+
+theorem enter_fine2 (ppi : K) (num : NumLit → K) (styles : Dict) (f : Frame K) (tag : String)
+    (attrs : List (String × String)) (hf : ScopeFine (liveCfg ppi num) f.vals) (hv : VtFine (liveCfg ppi num) f.vals) :
+    (ScopeFine (liveCfg ppi num) (enter (liveCfg ppi num) styles f tag attrs).1.vals ∧
+     VtFine (liveCfg ppi num) (enter (liveCfg ppi num) styles f tag attrs).1.vals) ∧
+    ∀ r ∈ (enter (liveCfg ppi num) styles f tag attrs).2.1,
+      ScopeFine (liveCfg ppi num) r.vals ∧ VtFine (liveCfg ppi num) r.vals := by
+  unfold enter
+  split
+  · exact ⟨⟨hf, hv⟩, by simp⟩
+  · have hc := compileVals_fine ppi num styles f tag attrs hf
+    have hcv : VtFine (liveCfg ppi num) (compileVals (liveCfg ppi num) styles f tag attrs) := hv
+    refine ⟨⟨(dispatch_fine ppi num f _ tag hc).1, dispatch_vtfine _ f _ tag hc hcv⟩, ?_⟩
+    intro r hr
+    rw [(dispatch_extends (liveCfg ppi num) f _ tag).2 r hr]
+    exact ⟨hc, hcv⟩
+
+mutual
+theorem recs_fine_node (ppi : K) (num : NumLit → K) (defs : List (String × Xml)) (fuel : Nat) (active : List String)
+    (styles : Dict) (f : Frame K) (x : Xml)
+    (hf : ScopeFine (liveCfg ppi num) f.vals) (hv : VtFine (liveCfg ppi num) f.vals) :
+    ∀ r ∈ (specNode (liveCfg ppi num) defs fuel active styles f x).out,
+      ScopeFine (liveCfg ppi num) r.vals ∧ VtFine (liveCfg ppi num) r.vals := by
+  match x with
+  | .node tag attrs text kids =>
+    have he := enter_fine2 ppi num styles f tag attrs hf hv
+    rw [specNode]
+    rcases hen : enter (liveCfg ppi num) styles f tag attrs with ⟨f', outs, st⟩
+    rw [hen] at he
+    simp only [] at he ⊢
+    have ih1 := recs_fine_list ppi num defs fuel active styles f' kids he.1.1 he.1.2
+    cases st with
+    | returned => simpa using he.2
+    | raised e => simpa using he.2
+    | running =>
+      simp only []
+      generalize specList (liveCfg ppi num) defs fuel active styles f' kids = r1 at ih1 ⊢
+      have h1 : ∀ r ∈ outs ++ r1.out, ScopeFine (liveCfg ppi num) r.vals ∧ VtFine (liveCfg ppi num) r.vals := by
+        intro r hr
+        rcases List.mem_append.mp hr with h' | h'
+        · exact he.2 r h'
+        · exact ih1 r h'
+      cases r1.status with
+      | returned => simpa using h1
+      | raised e => simpa using h1
+      | running =>
+        simp only []
+        have h2 : ∀ (r2 : Res K), (∀ r ∈ r2.out, ScopeFine (liveCfg ppi num) r.vals ∧ VtFine (liveCfg ppi num) r.vals) →
+            ∀ r ∈ outs ++ r1.out ++ r2.out, ScopeFine (liveCfg ppi num) r.vals ∧ VtFine (liveCfg ppi num) r.vals := by
+          intro r2 hh r hr
+          rcases List.mem_append.mp hr with h' | h'
+          · exact h1 r h'
+          · exact hh r h'
+        cases useTarget defs active tag attrs with
+        | none => simp only []; exact h2 ⟨[], r1.styles, .running⟩ (by simp)
+        | some it =>
+          obtain ⟨i, target⟩ := it
+          simp only []
+          cases fuel with
+          | zero => simp only []; exact h2 ⟨[], r1.styles, .raised .recursion⟩ (by simp)
+          | succ n =>
+            simp only []
+            have ih2 := recs_fine_node ppi num defs n (active ++ [i]) r1.styles f' target he.1.1 he.1.2
+            generalize specNode (liveCfg ppi num) defs n (active ++ [i]) r1.styles f' target = r2 at ih2 ⊢
+            cases r2.status <;> simp only [] <;> exact h2 r2 ih2
+termination_by (fuel, sizeOf x)
+
+theorem recs_fine_list (ppi : K) (num : NumLit → K) (defs : List (String × Xml)) (fuel : Nat) (active : List String)
+    (styles : Dict) (f : Frame K) (l : List Xml)
+    (hf : ScopeFine (liveCfg ppi num) f.vals) (hv : VtFine (liveCfg ppi num) f.vals) :
+    ∀ r ∈ (specList (liveCfg ppi num) defs fuel active styles f l).out,
+      ScopeFine (liveCfg ppi num) r.vals ∧ VtFine (liveCfg ppi num) r.vals := by
+  match l with
+  | [] => rw [specList]; simp
+  | k :: ks =>
+    rw [specList]
+    have ih1 := recs_fine_node ppi num defs fuel active styles f k hf hv
+    generalize specNode (liveCfg ppi num) defs fuel active styles f k = r1 at ih1 ⊢
+    simp only []
+    cases r1.status with
+    | returned => simpa using ih1
+    | raised e => simpa using ih1
+    | running =>
+      simp only []
+      have ih2 := recs_fine_list ppi num defs fuel active r1.styles f ks hf hv
+      intro r hr
+      rcases List.mem_append.mp hr with h' | h'
+      · exact ih1 r h'
+      · exact ih2 r h'
+termination_by (fuel, sizeOf l)
+end
+
+/-- **No abort, end to end.** `renderDoc` — the event loop, the container constructors and the
+    shape constructors with their length, colour, point-list and transform parsers — returns for
+    every document whose caller-supplied transform is acceptable, whatever the attribute texts
+    are; the only other outcome of the model is the marker of a length the library keeps
+    symbolic. -/
+theorem C10_render_no_abort (ppi tau : K) (num : NumLit → K) (f : Frame K) (roots : List Xml)
+    (hf : ScopeFine (liveCfg ppi num) f.vals) (hv : VtFine (liveCfg ppi num) f.vals) :
+    OD (renderDoc (liveCfg ppi num) tau f roots) := by
+  unfold renderDoc
+  obtain ⟨ho, hst, _⟩ := run_semiList (liveCfg ppi num) (idTable roots) ((idTable roots).length + 1) [] roots (initSt f) rfl
+  have hb : Budget (idTable roots) ((idTable roots).length + 1) [] := ⟨List.nodup_nil, by simp, by simp [keys]⟩
+  have hrecs := recs_fine_list ppi num (idTable roots) ((idTable roots).length + 1) [] [] f roots hf hv
+  have hout : ∀ r ∈ (run (liveCfg ppi num) (initSt f) (events roots)).out,
+      (∀ p ∈ r.vals.tf.getD [], PieceFine (liveCfg ppi num) p) ∧ (∀ p ∈ r.vals.vt.getD [], PieceFine (liveCfg ppi num) p) := by
+    intro r hr
+    unfold events at hr
+    rw [ho] at hr
+    exact hrecs r (by simpa [initSt] using hr)
+  have hall := od_shapesOf (liveCfg ppi num) tau _ hout
+  simp only []
+  cases hstat : (run (liveCfg ppi num) (initSt f) (events roots)).status with
+  | running =>
+    simp only []
+    apply od_bind hall
+    intro _
+    exact od_shapesOf _ tau _ (fun r hr => hout r (List.mem_of_mem_filter hr))
+  | returned => simp only []; exact od_map _ hall
+  | raised e =>
+    simp only []
+    have he : e = .deferred := by
+      unfold events at hstat
+      rw [hst] at hstat
+      exact fine_list ppi num _ _ _ _ f roots e hf hb hstat
+    subst he
+    cases hs : shapesOf (liveCfg ppi num) tau (run (liveCfg ppi num) (initSt f) (events roots)).out with
+    | ok _ => exact od_err
+    | error e' =>
+      have := hall e' hs
+      subst this
+      exact od_err
 
 end Total
 
